@@ -1430,6 +1430,13 @@ def add_level2(res, prop, tier, seed, classes, group, want, b2_reject):
             cov['transitions'] += r['transitions']
             if not r['violated']:
                 continue
+            if not r.get('cex'):
+                msg = ('MODEL-DRIFT property=%s class=%s: %s (%s) is violated in the model instantiated from the code; no schedule can be '
+                       'derived from this configuration, the verdict rests on the explored real executions'
+                       % (prop, cls, r['violated'], r['tag']))
+                log(msg)
+                notes.append(msg)
+                continue
             # B3: drive the real code along the counterexample
             ex, prog = level2.replay_cex(cls, [tuple(x) for x in r['cex']], workdir)
             if ex is None:
